@@ -236,7 +236,7 @@ class Ctx:
         """Record a pvx.field.Verdict.  `native_fn(point)` replays a refutation on the
         real code and returns dict(reproduced=bool, ...)."""
         if v.status == "proved":
-            return self.add(Ob(name, kind, "proved", v.backend, v.time_s, v.detail))
+            return self.add(Ob(name, kind, "proved", v.backend, v.time_s, v.detail, bounded=bool(getattr(v, "bounded", False))))
         if v.status == "refuted":
             native = None
             if native_fn is not None and v.point is not None:
